@@ -101,9 +101,9 @@ META = {
     },
     'C01': {
         'engine': 'E1 verus-extract',
-        'technique': 'Verus postconditions on the proving-option presets (membership in the verifier accept sets) and on the prover\'s get_pub_inputs; bounded prove_grid over main- and chiplet-dominated trace lengths around powers of two',
+        'technique': 'Verus postconditions on the proving-option presets (membership in the verifier accept sets), on the prover\'s get_pub_inputs and on the trace-length arithmetic (Chiplets::trace_len and fragment offsets, TraceLenSummary::padded_trace_len); bounded prove_grid over main- and chiplet-dominated trace lengths around powers of two',
         'design_ref': '§7 C01',
-        'level_text': 'Glue obligations only: each standard preset (96/128-bit, regular/recursive) carries a hash function and options that verify() accepts for that hash function; the statement the prover commits to is (trace program info, given inputs, given outputs), the same shape verify() rebuilds. Bounded: 14 real prove / verify / byte-round-trip runs incl. exact-fit main lengths 2^k - 1 (F23) and chiplet lengths 2^6 - 3 .. 2^6 + 2.',
+        'level_text': 'Glue obligations only: each standard preset (96/128-bit, regular/recursive) carries a hash function and options that verify() accepts for that hash function; the statement the prover commits to is (trace program info, given inputs, given outputs), the same shape verify() rebuilds; the chiplets length is the sum of the four fragments plus the padding row and the padded length is the smallest power of two holding cycles + HALT row, range table and chiplet rows plus the random row. Bounded: 14 real prove / verify / byte-round-trip runs incl. exact-fit main lengths 2^k - 1 (F23) and chiplet lengths 2^6 - 3 .. 2^6 + 2.',
         'level_note': 'Protocol completeness (winterfell prover succeeds, verifier accepts, security level) is assumed, not proved; prove() body out of reach; honest-trace satisfaction is property C03.',
     },
     'C16': {
